@@ -36,11 +36,28 @@ EXT = R + "::literal::Extractor"
 KINDS = ["Empty", "Literal", "Class", "Look", "Repetition", "Capture", "Concat", "Alternation"]
 
 
+def canon_target(f, t):
+    """Follow call-free straight-line binding stubs (or-patterns bind per variant, then share the arm body)."""
+    seen = set()
+    while t not in seen:
+        seen.add(t)
+        b = f.blocks[t]
+        if b["term"]["k"] != "goto":
+            break
+        nxt = b["term"]["t"]
+        if any(st["k"] == "assign" and st["rv"]["k"] not in ("ref", "use", "discr", "rawptr") for st in b["stmts"]):
+            break
+        t = nxt
+        if len(f.preds(t)) > 1:
+            break
+    return t
+
+
 def own_region(f, arms, ow, v, variants):
-    t = arms.get(v, ow)
+    t = canon_target(f, arms.get(v, ow))
     others = set()
     for v2 in variants:
-        t2 = arms.get(v2, ow)
+        t2 = canon_target(f, arms.get(v2, ow))
         if t2 != t:
             others |= C.reach(f, [t2])
     return C.reach(f, [t]) - others
@@ -261,167 +278,177 @@ def run(ctx):
             r.bad("ascii", "the pattern is rewritten before the terminator is checked to be ASCII", fn=g, construct="ascii")
 
     with ctx.rule("C11.EXACT", "exactness bookkeeping of the inner-literal extractor", floor=9, kind="PASS/GUARD") as r:
-        MI = TSEQ + "::make_inexact"
-        f = facts.fn(TSEQ + "::choose")
-        mi = f.calls_to(MI)
-        if len(mi) >= 2 and all(not C.all_paths_pass(f, [0], {c.bb}, f.return_blocks()) for c in mi[:2]):
-            eb = ExprBuilder(f)
-            r.ok("choose", "both operands made inexact before every return", fn=f)
-        else:
-            r.bad("choose", "TSeq::choose can return a sequence still marked exact: a later concatenation would treat a partial "
-                  "literal as complete", fn=f, construct="choose")
-        g = facts.fn(EXT + "::extract_repetition")
-        ebg = ExprBuilder(g)
-        mi = g.calls_to(MI)
-        REP = "regex_syntax::hir::Repetition"
-
-        def minmax(e):
-            return e.k == "bin" and mentions_field(e, REP, "min") and mentions_field(e, REP, "max")
-        lt = cond_switches(g, lambda e: minmax(e) and e[1] == "Lt", ebg)
-        ne1 = cond_switches(g, lambda e: is_call(e, "core::cmp::PartialEq::ne") and mentions_field(e, REP, "max"), ebg)
-        gtl = cond_switches(g, lambda e: e.k == "bin" and e[1] == "Gt" and mentions_field(e, REP, "min") and
-                            mentions_call(e, "core::result::Result::unwrap_or"), ebg)
-        ise = cond_switches(g, lambda e: is_call(e, "core::result::Result::is_err"), ebg)
-        mib = {c.bb for c in mi}
-        if len(mi) < 4:
-            r.bad("repetition|sites", "extract_repetition has %d make_inexact sites, 4 confirmed" % len(mi), fn=g, construct="repetition")
-        if lt:
-            esc = C.all_paths_pass(g, [lt[0][1][1]], mib, g.return_blocks())
-            esc2 = C.all_paths_pass(g, [lt[0][2][1]], mib, g.return_blocks())
-            if not esc:
-                r.ok("repetition|range", "{m,n} with m<n ⇒ inexact", fn=g)
-            else:
-                r.bad("repetition|range", "a bounded repetition {m,n} (m<n) can yield an exact sequence", fn=g, construct="repetition")
-            if not esc2:
-                r.ok("repetition|open", "open-ended repetition ⇒ inexact", fn=g)
-            else:
-                r.bad("repetition|open", "an open-ended repetition ({m,}) can yield an exact sequence", fn=g, construct="repetition")
-        else:
-            r.bad("repetition|range", "anchor-missing: no `min < max` test in extract_repetition", fn=g)
-        zero = [c for c in mi if ne1 and not guarded(g, [c.bb], ne1, True)]
-        if zero:
-            r.ok("repetition|zero", "{0,n}: inexact unless n == 1", fn=g)
-        else:
-            r.bad("repetition|zero", "`x*` / `x{0,n}` is no longer made inexact under max != Some(1)", fn=g, construct="repetition")
-        removed = {s_[1] for s_ in gtl} | {s_[1] for s_ in ise}
-        reach_wo = C.reach(g, [0], removed_edges=removed)
-        exact = [c for c in mi if gtl and c.bb not in reach_wo]
-        if exact:
-            r.ok("repetition|exact", "{n}: inexact only when n exceeds the repeat limit", fn=g)
-        else:
-            r.bad("repetition|exact", "`x{n}` beyond the repeat limit is no longer made inexact", fn=g, construct="repetition")
-        h = facts.fn(EXT + "::extract_concat")
-        mnp = h.calls_to(TSEQ + "::make_not_prefix")
-        ebh = ExprBuilder(h)
-        inx = cond_switches(h, lambda e: is_call(e, TSEQ + "::is_inexact"), ebh)
-        if mnp and inx and not guarded(h, [mnp[0].bb], inx, True) and h.calls_to(TSEQ + "::choose"):
-            r.ok("concat|restart", "after an inexact prefix the sequence restarts as not-prefix and the better half is chosen", fn=h)
-        else:
-            r.bad("concat|restart", "extract_concat restarts a sequence without marking it not-prefix (it could be crossed as if it "
-                  "started at the beginning)", fn=h, construct="concat")
-        cr = facts.fn(EXT + "::cross")
-        ebc = ExprBuilder(cr)
-        pf = cond_switches(cr, lambda e: W.field_of(e, TSEQ, "prefix") or mentions_field(e, TSEQ, "prefix"), ebc)
-        ch = cr.calls_to(TSEQ + "::choose")
-        cf = cr.calls_to(TSEQ + "::cross_forward")
-        if pf and ch and cf and not guarded(cr, [ch[0].bb], pf, False) and not guarded(cr, [cf[0].bb], pf, True):
-            r.ok("cross|prefix", "cross: !seq2.prefix ⇒ choose, otherwise cross_forward", fn=cr)
-        else:
-            r.bad("cross|prefix", "Extractor::cross crosses with a sequence that is not a prefix", fn=cr, construct="cross")
-        for fn_, combine in ((cr, TSEQ + "::cross_forward"), (facts.fn(EXT + "::union"), TSEQ + "::union")):
-            ebx = ExprBuilder(fn_)
-            inf = fn_.calls_to(TSEQ + "::make_infinite")
-            cmb = fn_.calls_to(combine)
-            lim = cond_switches(fn_, lambda e: mentions_call(e, "core::option::Option::map_or"), ebx)
-            if inf and cmb and lim and not guarded(fn_, [c.bb for c in inf], lim, True) and \
-                    all(cmb[0].bb in C.reach_after(fn_, c.bb) for c in inf):
-                r.ok("%s|limit" % fn_.name, "over limit_total ⇒ operand made infinite before combining", fn=fn_)
-            else:
-                r.bad("%s|limit" % fn_.name, "Extractor::%s no longer gives up (infinite) when the combined size exceeds limit_total"
-                      % fn_.name, fn=fn_, construct="limit")
-        eu = facts.fn(EXT + "::extract_untagged")
-        ebu = ExprBuilder(eu)
-        ig = cond_switches(eu, lambda e: is_call(e, TSEQ + "::is_good"), ebu)
-        mk = eu.calls_to(TSEQ + "::make_infinite")
-        if ig and mk and not guarded(eu, [mk[0].bb], ig, False):
-            r.ok("untagged|good", "sequences that are not 'good' are thrown away (infinite)", fn=eu)
-        else:
-            r.bad("untagged|good", "extract_untagged keeps literal sets that fail is_good()", fn=eu, construct="good")
-
+        exact_rule(ctx, r)
     with ctx.rule("C11.GATE", "no extraction without a terminator; terminator withheld under haystack anchors; candidate/confirmed sources",
                   floor=4, kind="GUARD/ARMS") as r:
-        IL = R + "::literal::InnerLiterals"
-        f = facts.fn(IL + "::new")
-        eb = ExprBuilder(f)
-        isn = cond_switches(f, lambda e: is_call(e, "core::option::Option::is_none") and
-                            mentions_field(e, R + "::config::Config", "line_terminator"), eb)
-        ex = f.calls_to(EXT + "::extract_untagged")
-        if isn and ex and not guarded(f, [ex[0].bb], isn, False):
-            s = Sccp(f).run([(isn[0][1][1], {})])
-            if not any(c.bb in s.exec_blocks for c in ex) and any(c.bb in s.exec_blocks for c in f.calls_to(IL + "::none")):
-                r.ok("no-terminator", "line_terminator.is_none() ⇒ InnerLiterals::none()", fn=f)
-            else:
-                r.bad("no-terminator", "literals are extracted although no line terminator is configured", fn=f, construct="gate")
-        else:
-            r.bad("no-terminator", "inner literals are extracted without checking that a line terminator is set (candidate lines "
-                  "would be meaningless)", fn=f, construct="gate")
-        g = facts.fn(IL + "::one_regex")
-        ebg = ExprBuilder(g)
-        lit = g.calls_to("regex_syntax::hir::literal::Seq::literals")
-        emp = cond_switches(g, lambda e: is_call(e, "[T]::is_empty"), ebg)
-        bld = [c for c in g.calls() if c.path.endswith("Builder::build_from_hir")]
-        if lit and emp and bld and not guarded(g, [bld[0].bb], emp, False):
-            s = seed_after_call(g, lit[0], V("None", None))
-            vals = {x for v in s.ret_values.values() for x in value_set(v)}
-            if vals == {V("Ok", V("None", None))}:
-                r.ok("one_regex", "infinite or empty sequence ⇒ no candidate regex", fn=g)
-            else:
-                r.bad("one_regex", "an infinite literal sequence still yields a candidate regex (%s)" % vals, fn=g, construct="one_regex")
-        else:
-            r.bad("one_regex", "one_regex builds a candidate regex from an empty/infinite sequence", fn=g, construct="one_regex")
-        h = facts.fn(R + "::config::ConfiguredHIR::line_terminator")
-        ebh = ExprBuilder(h)
-        an = cond_switches(h, lambda e: e.k == "call" and e[1].endswith("LookSet::contains_anchor_haystack"), ebh)
-        if an:
-            s1 = Sccp(h).run([(an[0][1][1], {})])
-            v1 = {x for v in s1.ret_values.values() for x in value_set(v)}
-            reads = [bb for bb, j, st in h.stmts() if st["k"] == "assign" and st["place"]["l"] == 0 and
-                     st["rv"]["k"] == "use" and op_place(st["rv"]["a"]) and (R + "::config::Config", "line_terminator") in fields_of_place(op_place(st["rv"]["a"]))]
-            if v1 == {V("None", None)} and reads and not guarded(h, reads, an, False):
-                r.ok("anchors", "\\A / \\z in the pattern ⇒ no terminator promise; otherwise the configured one", fn=h)
-            else:
-                r.bad("anchors", "ConfiguredHIR::line_terminator promises a terminator despite haystack anchors", fn=h, construct="anchors")
-        else:
-            r.bad("anchors", "the terminator promise no longer depends on haystack anchors", fn=h, construct="anchors")
-        k = facts.fn("<%s::matcher::RegexMatcher as grep_matcher::Matcher>::find_candidate_line" % R)
-        ebk = ExprBuilder(k)
-        LMK = "grep_matcher::LineMatchKind"
-        arms, info = W.variant_arms(k, ebk, lambda e: mentions_field(e, R + "::matcher::RegexMatcher", "fast_line_regex"))
-        if "Some" in arms and ("None" in arms or info):
-            tn = arms.get("None", info[0][3])
-            rs = C.reach(k, [arms["Some"]]) - C.reach(k, [tn])
-            rn = C.reach(k, [tn]) - C.reach(k, [arms["Some"]])
-            clos_s = [facts.fns.get(st["rv"]["closure"]) for bb, j, st in k.stmts() if bb in rs and st["k"] == "assign" and
-                      st["rv"]["k"] == "agg" and "closure" in st["rv"]]
+        gate_rule(ctx, r)
 
-            def makes(fnobj, variant):
-                return any(st["k"] == "assign" and st["rv"]["k"] == "agg" and st["rv"].get("adt") == LMK and st["rv"]["variant"] == variant
-                           for bb, j, st in fnobj.stmts())
-            cand = any(g_ is not None and makes(g_, "Candidate") for g_ in clos_s) or \
-                any(st["k"] == "assign" and st["rv"]["k"] == "agg" and st["rv"].get("adt") == LMK and st["rv"]["variant"] == "Candidate"
-                    for bb, j, st in k.stmts() if bb in rs)
-            conf_args = [eb_.k for eb_ in []]
-            conf = any(c.bb in rn and c.path.endswith("Option::map") and
-                       any(x.k == "fnref" and x[1].endswith("LineMatchKind::Confirmed") for x in walk(ebk.operand(c.args[1])))
-                       for c in k.calls()) or \
-                any(st["k"] == "assign" and st["rv"]["k"] == "agg" and st["rv"].get("adt") == LMK and st["rv"]["variant"] == "Confirmed"
-                    for bb, j, st in k.stmts() if bb in rn)
-            real = any(c.bb in rn and c.func.get("name") == "shortest_match" for c in k.calls())
-            cross = any(c.bb in rs and c.func.get("name") in ("shortest_match", "find", "is_match") and c.func.get("trait") for c in k.calls())
-            if cand and conf and real and not cross:
-                r.ok("candidate-line", "Candidate only from the literal regex, Confirmed only from the full matcher", fn=k)
-            else:
-                r.bad("candidate-line", "find_candidate_line mislabels its answers (candidate %s, confirmed %s via real matcher %s)"
-                      % (cand, conf, real), fn=k, construct="candidate")
+
+def exact_rule(ctx, r):
+    facts = ctx.facts
+    MI = TSEQ + "::make_inexact"
+    f = facts.fn(TSEQ + "::choose")
+    mi = f.calls_to(MI)
+    if len(mi) >= 2 and all(not C.all_paths_pass(f, [0], {c.bb}, f.return_blocks()) for c in mi[:2]):
+        eb = ExprBuilder(f)
+        r.ok("choose", "both operands made inexact before every return", fn=f)
+    else:
+        r.bad("choose", "TSeq::choose can return a sequence still marked exact: a later concatenation would treat a partial "
+              "literal as complete", fn=f, construct="choose")
+    g = facts.fn(EXT + "::extract_repetition")
+    ebg = ExprBuilder(g)
+    mi = g.calls_to(MI)
+    REP = "regex_syntax::hir::Repetition"
+
+    def minmax(e):
+        return e.k == "bin" and mentions_field(e, REP, "min") and mentions_field(e, REP, "max")
+    lt = cond_switches(g, lambda e: minmax(e) and e[1] == "Lt", ebg)
+    ne1 = cond_switches(g, lambda e: is_call(e, "core::cmp::PartialEq::ne") and mentions_field(e, REP, "max"), ebg)
+    gtl = cond_switches(g, lambda e: e.k == "bin" and e[1] == "Gt" and mentions_field(e, REP, "min") and
+                        mentions_call(e, "core::result::Result::unwrap_or"), ebg)
+    ise = cond_switches(g, lambda e: is_call(e, "core::result::Result::is_err"), ebg)
+    mib = {c.bb for c in mi}
+    if len(mi) < 4:
+        r.bad("repetition|sites", "extract_repetition has %d make_inexact sites, 4 confirmed" % len(mi), fn=g, construct="repetition")
+    if lt:
+        esc = C.all_paths_pass(g, [lt[0][1][1]], mib, g.return_blocks())
+        esc2 = C.all_paths_pass(g, [lt[0][2][1]], mib, g.return_blocks())
+        if not esc:
+            r.ok("repetition|range", "{m,n} with m<n ⇒ inexact", fn=g)
         else:
-            r.bad("candidate-line", "anchor-missing: find_candidate_line must branch on fast_line_regex", fn=k)
+            r.bad("repetition|range", "a bounded repetition {m,n} (m<n) can yield an exact sequence", fn=g, construct="repetition")
+        if not esc2:
+            r.ok("repetition|open", "open-ended repetition ⇒ inexact", fn=g)
+        else:
+            r.bad("repetition|open", "an open-ended repetition ({m,}) can yield an exact sequence", fn=g, construct="repetition")
+    else:
+        r.bad("repetition|range", "anchor-missing: no `min < max` test in extract_repetition", fn=g)
+    zero = [c for c in mi if ne1 and not guarded(g, [c.bb], ne1, True)]
+    if zero:
+        r.ok("repetition|zero", "{0,n}: inexact unless n == 1", fn=g)
+    else:
+        r.bad("repetition|zero", "`x*` / `x{0,n}` is no longer made inexact under max != Some(1)", fn=g, construct="repetition")
+    removed = {s_[1] for s_ in gtl} | {s_[1] for s_ in ise}
+    reach_wo = C.reach(g, [0], removed_edges=removed)
+    exact = [c for c in mi if gtl and c.bb not in reach_wo]
+    if exact:
+        r.ok("repetition|exact", "{n}: inexact only when n exceeds the repeat limit", fn=g)
+    else:
+        r.bad("repetition|exact", "`x{n}` beyond the repeat limit is no longer made inexact", fn=g, construct="repetition")
+    h = facts.fn(EXT + "::extract_concat")
+    mnp = h.calls_to(TSEQ + "::make_not_prefix")
+    ebh = ExprBuilder(h)
+    inx = cond_switches(h, lambda e: is_call(e, TSEQ + "::is_inexact"), ebh)
+    if mnp and inx and not guarded(h, [mnp[0].bb], inx, True) and h.calls_to(TSEQ + "::choose"):
+        r.ok("concat|restart", "after an inexact prefix the sequence restarts as not-prefix and the better half is chosen", fn=h)
+    else:
+        r.bad("concat|restart", "extract_concat restarts a sequence without marking it not-prefix (it could be crossed as if it "
+              "started at the beginning)", fn=h, construct="concat")
+    cr = facts.fn(EXT + "::cross")
+    ebc = ExprBuilder(cr)
+    pf = cond_switches(cr, lambda e: W.field_of(e, TSEQ, "prefix") or mentions_field(e, TSEQ, "prefix"), ebc)
+    ch = cr.calls_to(TSEQ + "::choose")
+    cf = cr.calls_to(TSEQ + "::cross_forward")
+    if pf and ch and cf and not guarded(cr, [ch[0].bb], pf, False) and not guarded(cr, [cf[0].bb], pf, True):
+        r.ok("cross|prefix", "cross: !seq2.prefix ⇒ choose, otherwise cross_forward", fn=cr)
+    else:
+        r.bad("cross|prefix", "Extractor::cross crosses with a sequence that is not a prefix", fn=cr, construct="cross")
+    for fn_, combine in ((cr, TSEQ + "::cross_forward"), (facts.fn(EXT + "::union"), TSEQ + "::union")):
+        ebx = ExprBuilder(fn_)
+        inf = fn_.calls_to(TSEQ + "::make_infinite")
+        cmb = fn_.calls_to(combine)
+        lim = cond_switches(fn_, lambda e: mentions_call(e, "core::option::Option::map_or"), ebx)
+        if inf and cmb and lim and not guarded(fn_, [c.bb for c in inf], lim, True) and \
+                all(cmb[0].bb in C.reach_after(fn_, c.bb) for c in inf):
+            r.ok("%s|limit" % fn_.name, "over limit_total ⇒ operand made infinite before combining", fn=fn_)
+        else:
+            r.bad("%s|limit" % fn_.name, "Extractor::%s no longer gives up (infinite) when the combined size exceeds limit_total"
+                  % fn_.name, fn=fn_, construct="limit")
+    eu = facts.fn(EXT + "::extract_untagged")
+    ebu = ExprBuilder(eu)
+    ig = cond_switches(eu, lambda e: is_call(e, TSEQ + "::is_good"), ebu)
+    mk = eu.calls_to(TSEQ + "::make_infinite")
+    if ig and mk and not guarded(eu, [mk[0].bb], ig, False):
+        r.ok("untagged|good", "sequences that are not 'good' are thrown away (infinite)", fn=eu)
+    else:
+        r.bad("untagged|good", "extract_untagged keeps literal sets that fail is_good()", fn=eu, construct="good")
+
+
+
+def gate_rule(ctx, r):
+    facts = ctx.facts
+    IL = R + "::literal::InnerLiterals"
+    f = facts.fn(IL + "::new")
+    eb = ExprBuilder(f)
+    isn = cond_switches(f, lambda e: is_call(e, "core::option::Option::is_none") and
+                        mentions_field(e, R + "::config::Config", "line_terminator"), eb)
+    ex = f.calls_to(EXT + "::extract_untagged")
+    if isn and ex and not guarded(f, [ex[0].bb], isn, False):
+        s = Sccp(f).run([(isn[0][1][1], {})])
+        if not any(c.bb in s.exec_blocks for c in ex) and any(c.bb in s.exec_blocks for c in f.calls_to(IL + "::none")):
+            r.ok("no-terminator", "line_terminator.is_none() ⇒ InnerLiterals::none()", fn=f)
+        else:
+            r.bad("no-terminator", "literals are extracted although no line terminator is configured", fn=f, construct="gate")
+    else:
+        r.bad("no-terminator", "inner literals are extracted without checking that a line terminator is set (candidate lines "
+              "would be meaningless)", fn=f, construct="gate")
+    g = facts.fn(IL + "::one_regex")
+    ebg = ExprBuilder(g)
+    lit = g.calls_to("regex_syntax::hir::literal::Seq::literals")
+    emp = cond_switches(g, lambda e: is_call(e, "[T]::is_empty"), ebg)
+    bld = [c for c in g.calls() if c.path.endswith("Builder::build_from_hir")]
+    if lit and emp and bld and not guarded(g, [bld[0].bb], emp, False):
+        s = seed_after_call(g, lit[0], V("None", None))
+        vals = {x for v in s.ret_values.values() for x in value_set(v)}
+        if vals == {V("Ok", V("None", None))}:
+            r.ok("one_regex", "infinite or empty sequence ⇒ no candidate regex", fn=g)
+        else:
+            r.bad("one_regex", "an infinite literal sequence still yields a candidate regex (%s)" % vals, fn=g, construct="one_regex")
+    else:
+        r.bad("one_regex", "one_regex builds a candidate regex from an empty/infinite sequence", fn=g, construct="one_regex")
+    h = facts.fn(R + "::config::ConfiguredHIR::line_terminator")
+    ebh = ExprBuilder(h)
+    an = cond_switches(h, lambda e: e.k == "call" and e[1].endswith("LookSet::contains_anchor_haystack"), ebh)
+    if an:
+        s1 = Sccp(h).run([(an[0][1][1], {})])
+        v1 = {x for v in s1.ret_values.values() for x in value_set(v)}
+        reads = [bb for bb, j, st in h.stmts() if st["k"] == "assign" and st["place"]["l"] == 0 and
+                 st["rv"]["k"] == "use" and op_place(st["rv"]["a"]) and (R + "::config::Config", "line_terminator") in fields_of_place(op_place(st["rv"]["a"]))]
+        if v1 == {V("None", None)} and reads and not guarded(h, reads, an, False):
+            r.ok("anchors", "\\A / \\z in the pattern ⇒ no terminator promise; otherwise the configured one", fn=h)
+        else:
+            r.bad("anchors", "ConfiguredHIR::line_terminator promises a terminator despite haystack anchors", fn=h, construct="anchors")
+    else:
+        r.bad("anchors", "the terminator promise no longer depends on haystack anchors", fn=h, construct="anchors")
+    k = facts.fn("<%s::matcher::RegexMatcher as grep_matcher::Matcher>::find_candidate_line" % R)
+    ebk = ExprBuilder(k)
+    LMK = "grep_matcher::LineMatchKind"
+    arms, info = W.variant_arms(k, ebk, lambda e: mentions_field(e, R + "::matcher::RegexMatcher", "fast_line_regex"))
+    if "Some" in arms and ("None" in arms or info):
+        tn = arms.get("None", info[0][3])
+        rs = C.reach(k, [arms["Some"]]) - C.reach(k, [tn])
+        rn = C.reach(k, [tn]) - C.reach(k, [arms["Some"]])
+        clos_s = [facts.fns.get(st["rv"]["closure"]) for bb, j, st in k.stmts() if bb in rs and st["k"] == "assign" and
+                  st["rv"]["k"] == "agg" and "closure" in st["rv"]]
+
+        def makes(fnobj, variant):
+            return any(st["k"] == "assign" and st["rv"]["k"] == "agg" and st["rv"].get("adt") == LMK and st["rv"]["variant"] == variant
+                       for bb, j, st in fnobj.stmts())
+        cand = any(g_ is not None and makes(g_, "Candidate") for g_ in clos_s) or \
+            any(st["k"] == "assign" and st["rv"]["k"] == "agg" and st["rv"].get("adt") == LMK and st["rv"]["variant"] == "Candidate"
+                for bb, j, st in k.stmts() if bb in rs)
+        conf_args = [eb_.k for eb_ in []]
+        conf = any(c.bb in rn and c.path.endswith("Option::map") and
+                   any(x.k == "fnref" and x[1].endswith("LineMatchKind::Confirmed") for x in walk(ebk.operand(c.args[1])))
+                   for c in k.calls()) or \
+            any(st["k"] == "assign" and st["rv"]["k"] == "agg" and st["rv"].get("adt") == LMK and st["rv"]["variant"] == "Confirmed"
+                for bb, j, st in k.stmts() if bb in rn)
+        real = any(c.bb in rn and c.func.get("name") == "shortest_match" for c in k.calls())
+        cross = any(c.bb in rs and c.func.get("name") in ("shortest_match", "find", "is_match") and c.func.get("trait") for c in k.calls())
+        if cand and conf and real and not cross:
+            r.ok("candidate-line", "Candidate only from the literal regex, Confirmed only from the full matcher", fn=k)
+        else:
+            r.bad("candidate-line", "find_candidate_line mislabels its answers (candidate %s, confirmed %s via real matcher %s)"
+                  % (cand, conf, real), fn=k, construct="candidate")
+    else:
+        r.bad("candidate-line", "anchor-missing: find_candidate_line must branch on fast_line_regex", fn=k)
